@@ -156,6 +156,13 @@ class C07Stream(R.ScenarioStream):
         out.append(f"phase={tag.get('phase')}")
         out.append(f"period={case['period']}")
         out.append("one_shot" if case["one_shot"] else "forever")
+        out.append(f"fn={case.get('fn', 'index')}")
+        vals = {e[3] for e in log if e[0] == "sink"}
+        for v in ("nan", "inf", "-inf"):
+            if v in vals:
+                out.append(f"emitted_value_{v}")
+        if None in vals and any(e[0] == "fn" for e in log):
+            out.append("emitted_value_None")
         if case.get("align_tz"):
             out.append("align_to_in_DST_zone")
             xs = R.DST_ZONES[case["align_tz"]]
@@ -197,7 +204,7 @@ class C07Stream(R.ScenarioStream):
 
 
 def streams():
-    return [C07Stream(), ActorStream()]
+    return [C07Stream(), ActorStream(), MovingWindowStream()]
 
 
 TRUSTED = ["async_solipsism 0.7 virtual event loop (integer-microsecond clock) + time_machine slaved to it",
@@ -330,3 +337,53 @@ class ActorStream(R.Stream):
             for fld in ("close_at", "nsamples"):
                 if m.get(fld) is not None:
                     yield {**case, "metrics": case["metrics"][:i] + [{k: v for k, v in m.items() if k != fld}] + case["metrics"][i + 1:]}
+
+
+class MovingWindowStream(R.ScenarioStream):
+    """The Resampler a MovingWindow builds from `resampler_config` (second construction path), judged by the same
+    timeline model and oracle: what the window's sink is handed must lie on align_to + k*period."""
+    name = "moving_window"
+    coq_header = R.C07_HEADER
+    n_quick = 150
+    n_thorough = 2000
+
+    def gen(self, rng, tier):
+        yield from R.mw_boundary_cases()
+        for _ in range(self.n_quick if tier == "quick" else self.n_thorough):
+            yield R.gen_mw_case(rng, tier)
+
+    def run_impl(self, case):
+        return R.run_mw_scenario(case)
+
+    def to_coq(self, case, obs):
+        return R.c07_term(case, obs)
+
+    def oracle(self, case, obs):
+        return judge_c07(case, obs["log"])
+
+    def key(self, case, obs):
+        if sum(1 for e in obs["log"] if e[0] == "sink") < 2:
+            return None
+        return json.dumps([case["period"], case["align"], case["align_tz"], case["start"], case["samples"][:3]], sort_keys=True)
+
+    def labels(self, case, obs):
+        out = ["moving_window_run", f"align={case['tag']['align']}"]
+        if case.get("align_tz"):
+            out.append("align_to_in_DST_zone")
+        vals = {e[3] for e in obs["log"] if e[0] == "sink"}
+        out += [f"emitted_value_{v}" for v in ("nan", "inf", "-inf") if v in vals]
+        if None in vals:
+            out.append("emitted_value_None")
+        if any(e[0] == "hog" for e in obs["log"]):
+            out.append("timer_late(hog)")
+        return out
+
+    def shrink(self, case):
+        if case["hogs"]:
+            yield {**case, "hogs": []}
+        n = len(case["samples"])
+        if n:
+            yield {**case, "samples": []}
+            yield {**case, "samples": case["samples"][:n // 2]}
+        if case["duration"] > 3 * case["period"]:
+            yield {**case, "duration": case["duration"] - 2 * case["period"]}
